@@ -232,18 +232,10 @@ func init() {
 			return TFalse
 		}
 		if m.knownMode == "only:"+id {
-			// stay inside the region
-			if region.IsConst() {
-				if region.C == 0 {
-					m.end(OutAssumeFalse, "outside known region")
-				}
-			} else {
-				if len(m.path.trace) >= len(m.path.prefix) && m.path.check(region) == "unsat" {
-					m.end(OutAssumeFalse, "outside known region")
-				}
-				m.path.assert(region)
+			// demonstration pass: follow the path through the region (it must be entered at least once)
+			if m.decide(region) {
+				m.path.knownHit[id] = true
 			}
-			m.path.knownHit[id] = true
 			return TFalse
 		}
 		if m.decide(region) {
